@@ -71,6 +71,10 @@ def main(c):
                 why, kind = "not odd: f(%r) = %r, f(%r) = %r" % (y, f, -y, fm), "odd"
             elif not df > 0:
                 why, kind = "derivative %r is not positive" % df, "slope"
+            elif not vals[-y][nm][2] > 0:
+                why, kind = "derivative at %r is %r: not positive" % (-y, vals[-y][nm][2]), "slope-negative-side"
+            elif abs(vals[-y][nm][0] - vals[-y][nm][1]) > 1e-12 * max(1.0, abs(f)):
+                why, kind = "AndDerivative at %r returns the value %r, the plain function %r" % (-y, vals[-y][nm][1], vals[-y][nm][0]), "value-negative-side"
             elif abs(y) <= ymax and abs(lang(f) - y) > tol:
                 why, kind = "L(f(y)) - y = %.3g exceeds %g" % (lang(f) - y, tol), "accuracy"
             if why:
@@ -84,7 +88,8 @@ def main(c):
                 c.report(key, "%s approximation at y = %r: %s" % (nm, y, why), {"approximation": nm, "y": y, "f": f, "f(-y)": fm, "df": df,
                                                                                  "reason": why, "how": "props/C26/trace.cxx run"}, True)
         # derivative against a centred finite difference of the real function (execution only)
-    ys_fd = [y for y in ys if abs(abs(y) - 0.84136) > 1e-3][:: max(1, len(ys) // 200)]
+    ys_fd = [y for y in ys if abs(abs(y) - 0.84136) > 1e-3][:: max(1, len(ys) // 100)]
+    ys_fd = ys_fd + [-y for y in ys_fd]   # both signs: the odd extension has its own code paths
     inp = "\n".join("%r\n%r" % (y - h, y + h) for y in ys_fd) + "\n"
     rc, out2, err = c.run([exe, "run"], input=inp)
     rows = [l.split() for l in out2.splitlines()]
